@@ -1,3 +1,3 @@
 #include "engine.h"
-extern Family fam_lp;
-Family *g_families[] = { &fam_lp, 0 };
+extern Family fam_lp, fam_hist;
+Family *g_families[] = { &fam_lp, &fam_hist, 0 };
